@@ -476,12 +476,20 @@ def c02_extra(backend):
         f"Select(EventDataset('ds'), lambda e: e.{P}('A').Select(lambda j: j.pt() % 2))",
         f"Select(EventDataset('ds'), lambda e: e.{P}('A').Select(lambda j: j.nTrk() % 2))",
         f"Select(EventDataset('ds'), lambda e: e.{P}('A').Select(lambda j: j.pt() ** 2))",
+        # a method call whose ARGUMENT needs statements of its own (First / aggregates), on a receiver of an outer scope
+        f"Select(Where(EventDataset('ds'), lambda e: e.{P}('A').Count() > 0), lambda e: e.{P}('C').Select(lambda k: k.weight(e.{P}('A').First().pt())))",
+        f"Select(Where(EventDataset('ds'), lambda e: e.{S}('B').Count() > 0), lambda e: e.{P}('A').Select(lambda j: j.weight(e.{S}('B').First().pt(), j.pt())))",
+        f"Select(EventDataset('ds'), lambda e: e.{P}('A').Select(lambda j: j.weight(e.{S}('B').Where(lambda t: t.pt() > j.pt()).Count())))",
         # a string constant as a value: whatever storage the translator declares for it must be a declared C++ type
         f"Select(EventDataset('ds'), lambda e: e.{P}('A').Select(lambda j: 'hi'))",
         "Select(EventDataset('ds'), lambda e: 'hi')",
         f"Select(SelectMany(EventDataset('ds'), lambda e: e.{P}('A')), lambda j: ('hi', j.pt()))",
         f"Select(Where(EventDataset('ds'), lambda e: e.{P}('A').Count() > 0), lambda e: e.{P}('A').Select(lambda j: 'hi').First())",
     ]
+    if backend == "atlas":
+        qs += ["Select(Where(EventDataset('ds'), lambda e: e.Jets('A').Count() > 0), lambda e: e.EventInfo('EI').weight(e.Jets('A').First().pt()))",
+               "Select(Where(EventDataset('ds'), lambda e: e.Jets('A').Count() > 0), lambda e: e.EventInfo('EI').weight(e.Jets('A').First().pt()) + e.Jets('A').Count())",
+               "Select(EventDataset('ds'), lambda e: e.EventInfo('EI').weight(e.Jets('A').Where(lambda j: j.pt() > 1.5).Count()))"]
     return qs
 
 
@@ -1236,6 +1244,8 @@ def c09_programs(backend, tier):
         "Select(MetaData(EventDataset('ds'), {'metadata_type': 'inject_code', 'name': 'b', 'body_includes': 'a.h'}), lambda e: e.PRIM('A').Count())",
         "Select(MetaData(EventDataset('ds'), {'metadata_type': 'add_job_script', 'name': 'b', 'script': 'x = 1', 'depends_on': []}), lambda e: e.PRIM('A').Count())",
         "Select(MetaData(EventDataset('ds'), {'metadata_type': 'add_method_type_info', 'type_string': 'T', 'method_name': 'm', 'return_type': 'int', 'no_such_key': 1}), lambda e: e.PRIM('A').Count())",
+        "Select(MetaData(EventDataset('ds'), {'metadata_type': 'add_method_type_info', 'type_string': 'T', 'method_name': 'm', 'return_type': 'int', 'return_type_element': 'float'}), lambda e: e.PRIM('A').Count())",
+        "Select(MetaData(EventDataset('ds'), {'metadata_type': 'add_job_script', 'name': 'b', 'script': ['x = 1'], 'depends_on': [], 'depends': ['c']}), lambda e: e.PRIM('A').Count())",
         "Select(EventDataset('ds'), lambda e: (e.PRIM('A').Count(), e.PRIM('A')))",
         "Select(SelectMany(EventDataset('ds'), lambda e: e.PRIM('A')), lambda j: j)",
         "Where(EventDataset('ds'), lambda e: True)",
